@@ -134,3 +134,35 @@ func strCmp(op token.Token, x, y value) value {
 	}
 	return symStrBinop(op, x, y)
 }
+
+func init() {
+	// sync/atomic.Value as a plain cell (only one interpreted goroutine runs at a time)
+	externals["(*sync/atomic.Value).Load"] = func(fr *frame, a []value) value {
+		p := a[0].(*value)
+		return (*p).(structure)[0]
+	}
+	externals["(*sync/atomic.Value).Store"] = func(fr *frame, a []value) value {
+		p := a[0].(*value)
+		(*p).(structure)[0] = a[1]
+		fr.i.sc.bump()
+		return nil
+	}
+	externals["(*sync/atomic.Value).CompareAndSwap"] = func(fr *frame, a []value) value {
+		p := a[0].(*value)
+		cur := (*p).(structure)[0].(iface)
+		old := a[1].(iface)
+		if ifaceEq(cur, old) {
+			(*p).(structure)[0] = a[2]
+			fr.i.sc.bump()
+			return true
+		}
+		return false
+	}
+	externals["(*sync/atomic.Value).Swap"] = func(fr *frame, a []value) value {
+		p := a[0].(*value)
+		old := (*p).(structure)[0]
+		(*p).(structure)[0] = a[1]
+		fr.i.sc.bump()
+		return old
+	}
+}
